@@ -42,10 +42,15 @@ META = dict(
          "acyclic_terminates_uniform for one fuel bound serving the whole table); likewise parse_string incl. parse_all "
          "(parseString_terminates) and scan_string, whose own loop budget 2*len+4 never runs out (scanString_terminates). "
          "advancing_of_nonempty gives the simpler sufficient condition (such bodies / ignorables "
-         "never match empty); exG_advancing discharges it for a concrete 4-node grammar on every input. The inner loops' "
+         "never match empty), and advOk g k is an EXECUTABLE sufficient test for it (every ignorable / repetition body is a "
+         "token leaf Literal/Word/CharsNotIn, an And containing one, a MatchFirst of such, or a Group/Suppress/Combine/Located/"
+         "Forward wrapper of such; soundness consumes_sound, PPProofs/Lemmas/ParseStrict.lean): for tables passing rankOk "
+         "and advOk, termination holds on EVERY input with decidable hypotheses only (acyclic_terminates_checked, "
+         "entry_points_terminate_checked); exG_advancing instantiates it for a concrete 4-node grammar. The inner loops' "
          "private budgets (len+2) are shown never to run out (positions strictly increase and stay <= len+1). PARTIAL: "
          "recursive grammars (Forward cycles) are outside the termination theorem, Advancing is a semantic hypothesis "
-         "(not decided from the table), and the theorem is about the "
+         "(advOk decides only a sufficient fragment: Or, OneOrMore, SkipTo, keywords as bodies are not recognised), the "
+         "harness does not yet evaluate rankOk/advOk on the extracted grammars, and the theorem is about the "
          "model (`hang` = where the code would loop), tied to the code by the correspondence stream; termination of the real "
          "entry points is observed by the oracle's per-case alarm; the other internal exception types, the diagnostic accessors and every class outside the model (Each, Regex, QuotedString, White, Dict, "
          "IndentedBlock, helpers, pyparsing_common) are decided by the real-code oracle over the modelled generator and the "
@@ -69,6 +74,8 @@ THEOREMS = [
     "PP.LineCol.C14_linecol_consistent",
     "PP.Parse.acyclic_terminates", "PP.Parse.acyclic_terminates_uniform", "PP.Parse.parseString_terminates", "PP.Parse.scanString_terminates",
     "PP.Parse.advancing_of_nonempty", "PP.Parse.exG_advancing", "PP.Parse.rankOk_spec",
+    "PP.Parse.consumes_sound", "PP.Parse.advancing_of_advOk", "PP.Parse.acyclic_terminates_checked",
+    "PP.Parse.entry_points_terminate_checked",
 ]
 
 BOUNDARY = ["", " ", "\t", "\n", " \n ", "\r\n", "a", "ab", "ab ", " ab", "a\tb", "é", "aé b", "ab\n", "ab\n\n", "b", "a,", ",", "a\n b"]
